@@ -14,6 +14,7 @@ import (
 	"fmt"
 	"hash/fnv"
 	"runtime"
+	"strconv"
 	"strings"
 	"sync"
 	"sync/atomic"
@@ -105,13 +106,16 @@ var (
 	nSleeping  int
 	anon       int
 
-	onces map[*sync.Once]*onceSt
+	onces []*onceSt
 
 	probes    []uint32
 	probeLock sync.Mutex
 )
 
-type onceSt struct{ running, done bool }
+type onceSt struct {
+	o             *sync.Once
+	running, done bool
+}
 
 //go:norace
 func goid() uint64 {
@@ -163,7 +167,7 @@ func cur() *G {
 	}
 	// A goroutine the rewriter did not see (time.AfterFunc, a library). Adopt it.
 	anon++
-	g := &G{idx: len(all), Name: fmt.Sprintf("anon#%d", anon), Role: "anon", resume: make(chan struct{}), st: running}
+	g := &G{idx: len(all), Name: "anon#" + strconv.Itoa(anon), Role: "anon", resume: make(chan struct{}), st: running}
 	all = append(all, g)
 	bind(goid(), g)
 	return g
@@ -190,7 +194,7 @@ func Reset(c Chooser) {
 	Crashes = nil
 	nSleeping = 0
 	anon = 0
-	onces = map[*sync.Once]*onceSt{}
+	onces = nil
 	parkNotify = make(chan struct{}, 1) // created inside the bubble so that blocking on it is durable
 	g := &G{idx: 0, Name: "main", Role: "main", resume: make(chan struct{}), st: running}
 	bind(goid(), g)
@@ -237,7 +241,7 @@ func evlog(parts ...string) {
 	logHash = h
 	logN++
 	if Trace {
-		Log = append(Log, fmt.Sprintf("%d %s", steps, strings.Join(parts, " ")))
+		Log = append(Log, strconv.Itoa(steps)+" "+strings.Join(parts, " "))
 	}
 }
 
@@ -257,7 +261,7 @@ func Go(site string, fn func()) {
 	raceOff()
 	p := cur()
 	p.nchild++
-	name := fmt.Sprintf("%s>%s#%d", p.Name, site, p.nchild)
+	name := p.Name + ">" + site + "#" + strconv.Itoa(p.nchild)
 	raceOn()
 	goNamed(name, site, fn)
 }
@@ -418,10 +422,15 @@ func OnceDo(o *sync.Once, site string, f func()) {
 	}
 	Yield(site + ":pre")
 	raceOff()
-	st := onces[o]
+	var st *onceSt
+	for _, x := range onces {
+		if x.o == o {
+			st = x
+		}
+	}
 	if st == nil {
-		st = &onceSt{}
-		onces[o] = st
+		st = &onceSt{o: o}
+		onces = append(onces, st)
 	}
 	if st.done || st.running {
 		for !st.done {
